@@ -1117,20 +1117,20 @@ static Error CodeHolder_evaluate_expression(CodeHolder* self, Expression* exp, u
 
 Error CodeHolder::flatten() noexcept {
   uint64_t offset = 0;
+  // NOTE: Empty sections are aligned as well - the offset of every section respects its alignment, and a section
+  // that was empty before `flatten()` can end up covering the alignment of the section that follows it.
   for (Section* section : _sections_by_order) {
     uint64_t real_size = section->real_size();
-    if (real_size) {
-      uint64_t aligned_offset = Support::align_up(offset, section->alignment());
-      if (ASMJIT_UNLIKELY(aligned_offset < offset)) {
-        return make_error(Error::kTooLarge);
-      }
+    uint64_t aligned_offset = Support::align_up(offset, section->alignment());
+    if (ASMJIT_UNLIKELY(aligned_offset < offset)) {
+      return make_error(Error::kTooLarge);
+    }
 
-      Support::FastUInt8 of = 0;
-      offset = Support::add_overflow(aligned_offset, real_size, &of);
+    Support::FastUInt8 of = 0;
+    offset = Support::add_overflow(aligned_offset, real_size, &of);
 
-      if (ASMJIT_UNLIKELY(of)) {
-        return make_error(Error::kTooLarge);
-      }
+    if (ASMJIT_UNLIKELY(of)) {
+      return make_error(Error::kTooLarge);
     }
   }
 
@@ -1139,9 +1139,7 @@ Error CodeHolder::flatten() noexcept {
   Section* prev = nullptr;
   for (Section* section : _sections_by_order) {
     uint64_t real_size = section->real_size();
-    if (real_size) {
-      offset = Support::align_up(offset, section->alignment());
-    }
+    offset = Support::align_up(offset, section->alignment());
     section->set_offset(offset);
 
     // Make sure the previous section extends a bit to cover the alignment.
@@ -1163,11 +1161,10 @@ size_t CodeHolder::code_size() const noexcept {
   for (Section* section : _sections_by_order) {
     uint64_t real_size = section->real_size();
 
-    if (real_size) {
-      uint64_t aligned_offset = Support::align_up(offset, section->alignment());
-      ASMJIT_ASSERT(aligned_offset >= offset);
-      offset = Support::add_overflow(aligned_offset, real_size, &of);
-    }
+    // Must match `flatten()`, which aligns all sections including empty ones.
+    uint64_t aligned_offset = Support::align_up(offset, section->alignment());
+    ASMJIT_ASSERT(aligned_offset >= offset);
+    offset = Support::add_overflow(aligned_offset, real_size, &of);
   }
 
   if ((sizeof(uint64_t) > sizeof(size_t) && offset > uint64_t(SIZE_MAX)) || of) {
